@@ -23,7 +23,6 @@
 package queue
 
 import (
-	"sync"
 	"sync/atomic"
 	"unsafe"
 )
@@ -33,7 +32,6 @@ type Queue struct {
 	head unsafe.Pointer // pointer to the head of the queue
 	tail unsafe.Pointer // pointer to the tail of the queue
 	len  int64          // length of the queue
-	pool sync.Pool
 }
 
 // item is a single node in the queue.
@@ -50,20 +48,19 @@ func NewQueue() *Queue {
 		head: unsafe.Pointer(dummy), // both head and tail point to the dummy node
 		tail: unsafe.Pointer(dummy),
 		len:  0,
-		pool: sync.Pool{
-			New: func() any {
-				return &item{}
-			},
-		},
 	}
 }
 
 // Enqueue adds a value to the tail of the queue.
 func (q *Queue) Enqueue(v any) {
-	// Get a node from the pool
 	newNode := q.getItem()
 	newNode.v = v
 	newNodePtr := unsafe.Pointer(newNode)
+
+	// Count the value before it becomes visible: a concurrent Dequeue may remove
+	// it as soon as it is linked, and its decrement must never drive the length
+	// below zero (Length is unsigned and sizes the subscriber's iterator).
+	atomic.AddInt64(&q.len, 1)
 
 	for {
 		tail := (*item)(atomic.LoadPointer(&q.tail))
@@ -80,9 +77,6 @@ func (q *Queue) Enqueue(v any) {
 		if atomic.CompareAndSwapPointer(&tail.next, nil, newNodePtr) {
 			// Successfully linked, now try to advance tail
 			atomic.CompareAndSwapPointer(&q.tail, unsafe.Pointer(tail), newNodePtr)
-
-			// Increment length atomically
-			atomic.AddInt64(&q.len, 1)
 
 			return
 		}
@@ -103,14 +97,13 @@ func (q *Queue) Dequeue() any {
 
 		nextNode := (*item)(next)
 
+		// Read the value before advancing the head: once the head has moved,
+		// another Dequeue may already be past this node. Nodes are immutable
+		// after they are linked, so the read is safe whether or not the CAS wins.
+		value := nextNode.v
+
 		// Try to advance the head
 		if atomic.CompareAndSwapPointer(&q.head, unsafe.Pointer(head), next) {
-			// Get the value before potentially releasing the node
-			value := nextNode.v
-
-			// Release the old head node back to the pool
-			q.releaseItem(head)
-
 			// Decrement length atomically
 			atomic.AddInt64(&q.len, -1)
 
@@ -129,15 +122,11 @@ func (q *Queue) IsEmpty() bool {
 	return atomic.LoadInt64(&q.len) == 0
 }
 
-// getItem retrieves a node from the pool or creates a new one
+// getItem allocates a node. Nodes are never recycled: a concurrent Enqueue or
+// Dequeue may still hold a pointer to a node that has just been unlinked, and
+// resetting or reusing it would let that operation link a value behind a dead
+// node or swing the head to a stale one (lost, duplicated or reordered values).
+// Unlinked nodes are reclaimed by the garbage collector once unreferenced.
 func (q *Queue) getItem() *item {
-	return q.pool.Get().(*item)
-}
-
-// releaseItem returns a node to the pool for reuse
-func (q *Queue) releaseItem(i *item) {
-	// Reset i to prevent memory leaks
-	i.v = nil
-	i.next = nil
-	q.pool.Put(i)
+	return &item{}
 }
